@@ -89,11 +89,11 @@ func main() {
 	}
 	r.Require(req...)
 
-	n := r.N(648, 40000)
-	per := 27
-	workers := 4
+	n := r.N(432, 12960)
+	per := 18
+	workers := 6
 	if r.Thorough() {
-		workers, per = min(16, runtime.NumCPU()), 125
+		workers, per = min(16, runtime.NumCPU()), 135
 	}
 	var jobs [][2]int
 	for from := 0; from < n; from += per {
